@@ -254,6 +254,19 @@ Section Resolve.
         Some (gen_symbols_samples vars2 sf2 constants draws)
     end.
 
+  (* FormulaGrader.gen_evaluations: one dict `varlist` lives across the samples.  Per sample: varlist.update(sample);
+     the comparer parameters (the author's expressions) are evaluated in it; the blacklisted keys (instructor-only and
+     sibling variables) are deleted; the student's expression is evaluated.  Returns both scopes for every sample. *)
+  Definition remove_keys (bl : list str) (e : env) : env := filter (fun kv => negb (smem (fst kv) bl)) e.
+
+  Fixpoint eval_scopes (varlist : env) (bl : list str) (samples : list env) : list (env * env) :=
+    match samples with
+    | [] => []
+    | s :: r => let v1 := s ++ varlist in
+                let v2 := remove_keys bl v1 in
+                (v1, v2) :: eval_scopes v2 bl r
+    end.
+
   (* construct_constants: copy of the defaults, user constants assigned over it *)
   Definition construct_constants (defaults user : env) : env :=
     user ++ filter (fun kv => negb (amem user (fst kv))) defaults.
